@@ -92,7 +92,8 @@ package asm
 //@   panics has(a.labels, name)
 //@   ensures ret1 == a.address && has(a.labels, name) && a.labels[name] == a.address
 //@   ensures all(k, string, k != name ==> has(a.labels, k) == old(has(a.labels, k)) && a.labels[k] == old(a.labels[k]))
-//@   assigns a.labels, a.lines
+//@   ensures a.address == old(a.address) && a.n == old(a.n) && (!a.generateText ==> a.baseSet == old(a.baseSet))
+//@   assigns a.labels, a.lines, a.baseSet
 
 //@ func (*Emitter).GetLabel
 //@   property C19
